@@ -637,6 +637,13 @@ func c09SupplierMap(c *Ctx, rule string) {
 							if !ok || !lk.CommaOk || isSupplier(lk.X) != al || lk.Index != x.Key {
 								continue
 							}
+							// two different tables made in this very function are two tables: a test of one does not guard an insert
+							// into the other (a staging table copied over afterwards hides the earlier members from the test)
+							if m1, isM1 := resolve(x.Map).(*ssa.MakeMap); isM1 {
+								if m2, isM2 := resolve(lk.X).(*ssa.MakeMap); isM2 && m1 != m2 && m1.Parent() == m2.Parent() {
+									continue
+								}
+							}
 							for _, t := range okTestsOf(lk) {
 								iff, found, notFound := t.iff, t.found, t.notFound
 								if (notFound == b || notFound.Dominates(b)) && !reachableNoLoop(found, b, iff.Block()) {
@@ -687,6 +694,11 @@ func c09SupplierMap(c *Ctx, rule string) {
 				case *ssa.Lookup:
 					if isSupplier(x.X) != nil {
 						nLook++
+					}
+				case *ssa.Call:
+					// bulk insertion: members arrive without the duplicate test
+					if cal := calleeOf(x.Common()); (cal == "maps.Copy" || cal == "maps.Insert") && len(x.Common().Args) >= 1 && isSupplier(x.Common().Args[0]) != nil {
+						c.fail(rule, fnName(f2)+":supplier-bulk-insert", L.pos(x.Pos()), "suppliers are recorded one by one under the duplicate test; "+cal+" adds members to the supplier table without it")
 					}
 				}
 			}
